@@ -638,11 +638,7 @@ func (r *reader) read(src []byte) {
 			} else {
 				obj = String(src[r.tokenStart:r.pos])
 			}
-			if 0 < len(r.stack) {
-				r.stack = append(r.stack, obj)
-			} else {
-				r.code = append(r.code, obj)
-			}
+			r.push(obj)
 			r.mode = valueMode
 		case pipeDone:
 			var obj Object
@@ -651,11 +647,7 @@ func (r *reader) read(src []byte) {
 			} else {
 				obj = Symbol(src[r.tokenStart:r.pos])
 			}
-			if 0 < len(r.stack) {
-				r.stack = append(r.stack, obj)
-			} else {
-				r.code = append(r.code, obj)
-			}
+			r.push(obj)
 			r.mode = valueMode
 
 		case escByte:
@@ -780,11 +772,7 @@ func (r *reader) read(src []byte) {
 			r.mode = bitVectorMode
 		case bitVectorDone:
 			token := r.makeToken(src)
-			if 0 < len(r.stack) {
-				r.stack = append(r.stack, ReadBitVector(token))
-			} else {
-				r.code = append(r.code, ReadBitVector(token))
-			}
+			r.push(ReadBitVector(token))
 			r.mode = valueMode
 			goto Retry
 
@@ -837,11 +825,7 @@ func (r *reader) read(src []byte) {
 			r.pushInteger(src)
 		case bitVectorMode:
 			token := r.makeToken(src)
-			if 0 < len(r.stack) {
-				r.stack = append(r.stack, ReadBitVector(token))
-			} else {
-				r.code = append(r.code, ReadBitVector(token))
-			}
+			r.push(ReadBitVector(token))
 		case sharpMode, sharpNumMode, mustArrayMode:
 			r.partial("sharp macro not terminated")
 		case blockCommentMode, blockEndMode:
@@ -916,57 +900,63 @@ func (r *reader) closeList() {
 		} else {
 			obj = list
 		}
-		if 0 < start {
-			switch r.stack[start-1] {
-			case quoteMarker:
-				if newQuote == nil {
-					newQuote = CLPkg.GetFunc("quote").Create
-				}
-				obj = newQuote(List{obj})
-				start--
-				r.stack[start] = nil
-				r.stack = r.stack[:start+1]
-			case sharpQuoteMarker:
-				if newSharpQuote == nil {
-					newSharpQuote = CLPkg.GetFunc("function").Create
-				}
-				obj = newSharpQuote(List{obj})
-				start--
-				r.stack[start] = nil
-				r.stack = r.stack[:start+1]
-			case backquoteMarker:
-				if newBackquote == nil {
-					newBackquote = CLPkg.GetFunc("backquote").Create
-				}
-				obj = newBackquote(List{obj})
-				start--
-				r.stack[start] = nil
-				r.stack = r.stack[:start+1]
-			case commaMarker:
-				if newComma == nil {
-					newComma = CLPkg.GetFunc("comma").Create
-				}
-				obj = newComma(List{obj})
-				start--
-				r.stack[start] = nil
-				r.stack = r.stack[:start+1]
-			case commaAtMarker:
-				if newCommaAt == nil {
-					newCommaAt = CLPkg.GetFunc("comma-at").Create
-				}
-				obj = newCommaAt(List{obj})
-				start--
-				r.stack[start] = nil
-				r.stack = r.stack[:start+1]
-			}
+	}
+	r.stack = r.stack[:start]
+	r.starts = r.starts[:len(r.starts)-1]
+	r.push(obj)
+}
+
+// afterPrefix returns true if a quote, function, backquote, or comma
+// character was read just before the current position. Those are kept on the
+// stack as markers until the object they apply to has been read.
+func (r *reader) afterPrefix() bool {
+	if 0 < len(r.stack) {
+		switch r.stack[len(r.stack)-1] {
+		case quoteMarker, sharpQuoteMarker, backquoteMarker, commaMarker, commaAtMarker:
+			return true
 		}
 	}
-	if 0 < start {
-		r.stack[start] = obj
-		r.starts = r.starts[:len(r.starts)-1]
+	return false
+}
+
+// push an object just read onto the stack or onto the code if not in a
+// list. Any quote, function, backquote, and comma characters read just
+// before the object wrap the object, the closest first.
+func (r *reader) push(obj Object) {
+	for r.afterPrefix() {
+		switch r.stack[len(r.stack)-1] {
+		case quoteMarker:
+			if newQuote == nil {
+				newQuote = CLPkg.GetFunc("quote").Create
+			}
+			obj = newQuote(List{obj})
+		case sharpQuoteMarker:
+			if newSharpQuote == nil {
+				newSharpQuote = CLPkg.GetFunc("function").Create
+			}
+			obj = newSharpQuote(List{obj})
+		case backquoteMarker:
+			if newBackquote == nil {
+				newBackquote = CLPkg.GetFunc("backquote").Create
+			}
+			obj = newBackquote(List{obj})
+		case commaMarker:
+			if newComma == nil {
+				newComma = CLPkg.GetFunc("comma").Create
+			}
+			obj = newComma(List{obj})
+		case commaAtMarker:
+			if newCommaAt == nil {
+				newCommaAt = CLPkg.GetFunc("comma-at").Create
+			}
+			obj = newCommaAt(List{obj})
+		}
+		r.stack[len(r.stack)-1] = nil
+		r.stack = r.stack[:len(r.stack)-1]
+	}
+	if 0 < len(r.stack) {
+		r.stack = append(r.stack, obj)
 	} else {
-		r.stack = r.stack[:0]
-		r.starts = r.starts[:0]
 		r.code = append(r.code, obj)
 	}
 }
@@ -977,89 +967,17 @@ func (r *reader) pushToken(src []byte) {
 	var obj Object
 	token := r.makeToken(src)
 	size := len(token)
-	if size == 1 && (token[0] == 't' || token[0] == 'T') {
+	switch {
+	case size == 1 && (token[0] == 't' || token[0] == 'T'):
 		obj = True
-		goto Push
-	}
-	if size == 3 && bytes.EqualFold([]byte("nil"), token) {
-		obj = nil
-		goto Push
-	}
-	if 0 < len(r.stack) {
-		switch r.stack[len(r.stack)-1] {
-		case quoteMarker:
-			if newQuote == nil {
-				newQuote = CLPkg.GetFunc("quote").Create
-			}
-			if len(r.stack) == 1 {
-				r.code = append(r.code, newQuote(List{Symbol(token)}))
-				r.stack[len(r.stack)-1] = nil
-				r.stack = r.stack[:0]
-			} else {
-				r.stack[len(r.stack)-1] = newQuote(List{Symbol(token)})
-			}
-			return
-		case sharpQuoteMarker:
-			if newSharpQuote == nil {
-				newSharpQuote = CLPkg.GetFunc("function").Create
-			}
-			if len(r.stack) == 1 {
-				r.code = append(r.code, newSharpQuote(List{Symbol(token)}))
-				r.stack[len(r.stack)-1] = nil
-				r.stack = r.stack[:0]
-			} else {
-				r.stack[len(r.stack)-1] = newSharpQuote(List{Symbol(token)})
-			}
-			return
-		case backquoteMarker:
-			if newBackquote == nil {
-				newBackquote = CLPkg.GetFunc("backquote").Create
-			}
-			if len(r.stack) == 1 {
-				r.code = append(r.code, newBackquote(List{Symbol(token)}))
-				r.stack[len(r.stack)-1] = nil
-				r.stack = r.stack[:0]
-			} else {
-				r.stack[len(r.stack)-1] = newBackquote(List{Symbol(token)})
-			}
-			return
-		case commaMarker:
-			if newComma == nil {
-				newComma = CLPkg.GetFunc("comma").Create
-			}
-			if len(r.stack) == 1 {
-				r.code = append(r.code, newComma(List{Symbol(token)}))
-				r.stack[len(r.stack)-1] = nil
-				r.stack = r.stack[:0]
-			} else {
-				r.stack[len(r.stack)-1] = newComma(List{Symbol(token)})
-			}
-			return
-		case commaAtMarker:
-			if newCommaAt == nil {
-				newCommaAt = CLPkg.GetFunc("comma-at").Create
-			}
-			if len(r.stack) == 1 {
-				r.code = append(r.code, newCommaAt(List{Symbol(token)}))
-				r.stack[len(r.stack)-1] = nil
-				r.stack = r.stack[:0]
-			} else {
-				r.stack[len(r.stack)-1] = newCommaAt(List{Symbol(token)})
-			}
-			return
-		}
-	}
-	if size == 1 && token[0] == '.' && 0 < len(r.stack) {
+	case size == 3 && bytes.EqualFold([]byte("nil"), token):
+		// leave as nil
+	case size == 1 && token[0] == '.' && 0 < len(r.stack) && !r.afterPrefix():
 		obj = dotMarker
-	} else {
+	default:
 		obj = r.resolveToken(token)
 	}
-Push:
-	if 0 < len(r.stack) {
-		r.stack = append(r.stack, obj)
-	} else {
-		r.code = append(r.code, obj)
-	}
+	r.push(obj)
 }
 
 func (r *reader) resolveToken(token []byte) Object {
@@ -1202,11 +1120,7 @@ func (r *reader) pushChar(src []byte) {
 	if c == 0 {
 		r.raise(`'#\%s' is not a valid character`, token)
 	}
-	if 0 < len(r.stack) {
-		r.stack = append(r.stack, c)
-	} else {
-		r.code = append(r.code, c)
-	}
+	r.push(c)
 }
 
 func (r *reader) pushInteger(src []byte) {
@@ -1237,11 +1151,7 @@ func (r *reader) pushInteger(src []byte) {
 			r.raise("%s is not a valid base 2 integer", token)
 		}
 	}
-	if 0 < len(r.stack) {
-		r.stack = append(r.stack, obj)
-	} else {
-		r.code = append(r.code, obj)
-	}
+	r.push(obj)
 }
 
 // String returns a string representation of the instance.
